@@ -436,8 +436,25 @@ def evidence_dtype_rule(ctx):
                 if not defs:
                     break
                 v = max(defs, key=lambda n: (n.lineno, n.col_offset)).value
-            if isinstance(v, ast.Call) and ((isinstance(v.func, ast.Name) and v.func.id in ("float", "int")) or (isinstance(v.func, ast.Attribute) and v.func.attr in ("item", "tolist"))):
+            def _narrows(x):
+                return isinstance(x, ast.Call) and ((isinstance(x.func, ast.Name) and x.func.id in ("float", "int")) or (isinstance(x.func, ast.Attribute) and x.func.attr in ("item", "tolist")))
+            if _narrows(v):
                 narrowed[series] = call
+            elif isinstance(v, ast.Call) and isinstance(v.func, ast.Attribute):
+                # the value is what a method of the population returns: narrowed if one of that method's returns is (followed through one local)
+                S_ = repo.cls("aspire.samples:SMCSamples")
+                m_ = S_.resolve(v.func.attr)
+                if m_ is not None:
+                    for r_ in walk_no_nested(m_.node):
+                        if not (isinstance(r_, ast.Return) and r_.value is not None):
+                            continue
+                        rv = r_.value
+                        if isinstance(rv, ast.Name):
+                            ds = [n for n in walk_no_nested(m_.node) if isinstance(n, ast.Assign) and any(isinstance(t, ast.Name) and t.id == rv.id for t in n.targets) and n.lineno < r_.lineno]
+                            if ds:
+                                rv = max(ds, key=lambda n: n.lineno).value
+                        if _narrows(rv):
+                            narrowed[series] = call
     for series, has_dtype in sorted(rebuilt.items()):
         bad = series in narrowed and not has_dtype
         ctx.decide(not bad, "C15.evid", sample.ident, loc_of(sample, narrowed.get(series)), f"history.{series}: recorded as backend scalars (or rebuilt with an explicit dtype), so the returned evidence keeps the population's precision",
@@ -467,6 +484,7 @@ MUTANTS = [
     M("array_to_namespace into numpy always", _S, "x = asarray(x, self.xp, **kwargs)", "x = asarray(x, np, **kwargs)", "C15.a2n"),
 ]
 MUTANTS += [
+    M("per-step ratio returned as a Python float", _S, "return logsumexp(log_w) - math.log(len(self.x))", "return float(logsumexp(log_w) - math.log(len(self.x)))", "C15.evid"),
     M("evidence ratios narrowed to Python floats before they are recorded", "src/aspire/samplers/smc/base.py", "log_evidence_ratio = samples.log_evidence_ratio(beta)", "log_evidence_ratio = float(samples.log_evidence_ratio(beta))", "C15.evid"),
     M("evidence ratios recorded as Python floats", "src/aspire/samplers/smc/base.py", "self.history.log_norm_ratio.append(log_evidence_ratio)", "self.history.log_norm_ratio.append(float(log_evidence_ratio))", "C15.evid"),
     M("namespace default dtype memoised", _S, "            self.dtype = default_dtype(self.xp)\n", "            self.dtype = _cached_default(self.xp)\n", "C15.cache",
